@@ -171,7 +171,9 @@ func (c *Ctx) topReturn(st *State, fr *Frame, results []Val, res *FuncResult) {
 			env := c.entryEnv(st, fr)
 			bindResults(env, fr.fn.Signature, rts)
 			env.goal = true
+			c.curClause = cl
 			c.oblige(st, fr, "post", "", cl.Label, pos, env.evalBool(cl.E), cl.Props, cl.Src)
+			c.curClause = nil
 		}
 		if fc.HasMod {
 			c.frameObligations(st, fr, pos)
